@@ -50,12 +50,12 @@ func init() {
 			"A node the climber moves between queues leaves exactly one queue and enters exactly one (C05.moves): an entry in no queue can never be chosen for eviction. "+
 			"NOT decided: the bound itself (sum of weights <= maximum) over histories and schedules; absence of uint64 underflow in the totals.",
 		[]string{"the eviction callback updates the policy's counters (modelled as havoc of the policy's fields)", "deque operations behave as C05.deque decides"},
-		rulePolicy, ruleDeque, ruleDequeShape, ruleC04SetMax, ruleC05Task, ruleC05RunTask, ruleC13Order, ruleC05Moves, ruleC01Config, ruleC04Exit, ruleC05Views)
+		rulePolicy, ruleDeque, ruleDequeShape, ruleC04SetMax, ruleC05Task, ruleC05RunTask, ruleC13Order, ruleC05Moves, ruleC01Config, ruleC04Exit, ruleC05Views, ruleC05PolUnlink)
 	register("C05",
 		"Decides, per path, that policy bookkeeping follows the table: every table change yields exactly one matching replay task (C05.task); the replay handler applies each task kind completely (C05.runTask); add links only alive nodes (C05.alive); the update handler leaves the new node linked - transplant only from a contained predecessor, else window entry (C05.transplant); the eviction callback unlinks, unschedules and kills on all paths (C05.evict); the intrusive deque clears links of removed/replaced nodes and keeps len in step (C05.deque); totals are written only by their handlers (C04.acct); the functions that move entries between the three queues conserve membership, tag and per-queue counters on every path (C05.moves); policy, deque, wheel and node link state is written, and both buffers are consumed, only with the eviction lock held (C05.lockctx); no task is dropped on enqueue (C14.after); every mutator of the timer wheel keeps scheduled <=> linked in exactly one ring - Add links on every path (C13.shape): an entry the wheel does not know is never swept. "+
 			"NOT decided: equality of the counters with the sum of weights and set(Coldest)=set(All) as run-time facts.",
 		[]string{"tasks are replayed exactly once in producer order (C16)"},
-		ruleC05Task, ruleC05RunTask, rulePolicy, ruleC05Moves, ruleDeque, ruleDequeShape, ruleEvict, ruleC05LockCtx, ruleC05LockRead, ruleC14After, ruleC16Consume, ruleWheelShape, ruleC05GetTask, ruleC01Config, ruleC15SizeCopy, ruleC15Size, ruleC05Views)
+		ruleC05Task, ruleC05RunTask, rulePolicy, ruleC05Moves, ruleDeque, ruleDequeShape, ruleEvict, ruleC05LockCtx, ruleC05LockRead, ruleC14After, ruleC16Consume, ruleWheelShape, ruleC05GetTask, ruleC01Config, ruleC15SizeCopy, ruleC15Size, ruleC05Views, ruleC05PolUnlink)
 	register("C07",
 		"Decides the structural clauses of 'entries disappear only for a sanctioned, truthful reason': evictions for size happen only in iterations guarded by weightedSize > maximum and never hit zero-weight entries (C04.loop, C04.zero); window transfers only above the window maximum (C07.window); the eviction callback reports Expiration exactly when the victim is expired at its time and Overflow otherwise, and only the policy (which exists only with a size bound) and the timer wheel call it (C07.causeflow); the wheel expires only on deadline < wheel time and passes that time (C13.nodrop). "+
 			"A deadline that has passed is the entry's own: a write over an absent or expired key takes the create hook and a fresh clock sample (C12.hook), so no entry is born with its predecessor's expired deadline; a loaded value is stored with a clock sample taken when it is stored, not when the load began (C10.finisher), so a slow load does not produce an entry that expires before its deadline. "+
